@@ -76,10 +76,6 @@ TRUSTED_BASE = [
     "(gen.compare_datasets + logs + metadata + check_dataset violations)",
 ]
 ASSUMPTIONS = [
-    "the output path, after the .rtdc suffix has been appended, differs from "
-    "all input paths (a task asked to write onto its own input - also "
-    "`repack data.rtdc data` - removes it in setup_task_paths; excluded; "
-    "names that merely share the stem, like data.repacked, are in scope)",
     "split: no stale temporary file <stem>_NNNN.rtdc~ exists (the real task "
     "then refuses to run: OSError from export.hdf5 before any write to that "
     "file; exercised separately as a natural-failure scenario)",
@@ -655,6 +651,10 @@ def load_corpus_cases():
             if fn.endswith(".json"):
                 c = json.load(open(os.path.join(d, fn)))["case"]
                 if "task" in c and "k" not in c:
+                    c = dict(c)
+                    # natural-failure scenarios are run on every suitable
+                    # case, the seed contributes its base case
+                    c.pop("scenario", None)
                     out.append(c)
     return out
 
@@ -826,6 +826,11 @@ def _run(run):
                         case["stale_out"][i] and case["task"] == "split"):
                     fails.append("task failed (%s) but left %s" % (
                         info["err"], info["lay"]["outs"][i]))
+            if case.get("out_name"):
+                fails.append("the task fails (%s) for the legal output name "
+                             "%r (result expected at %s)" % (
+                                 info["err"][:150], case["out_name"],
+                                 info["lay"]["outs"]))
             if not all(ro["inputs_same"]):
                 gone = [p for p, ok in zip(info["lay"]["all_inputs"],
                                            ro["inputs_same"]) if not ok]
@@ -1118,7 +1123,7 @@ def names_check(run):
         name = gen_name(run.rng)
         if q % 3 == 0:
             # stem of the input, arbitrary suffix: legal, must not alias
-            name = "in" + run.rng.choice(ALIAS_SUFFIXES + [
+            name = "in" + run.rng.choice(ALIAS_SUFFIXES + ["", ".rtdc"] + [
                 "." + "".join(run.rng.choice("abrtdc.") for _ in range(
                     run.rng.randint(1, 5))) + "x"])
         (d / "in.rtdc").write_bytes(content)
@@ -1133,27 +1138,26 @@ def names_check(run):
                 (d / "in.rtdc").read_bytes() != content:
             lost = ("setup_task_paths(in.rtdc -> %r) removed or changed "
                     "the input file in.rtdc" % name)
-        if refused is not None:
-            # refusing to run is fine when the output would be the input
-            if lost or predicted_out_name(name) != "in.rtdc":
-                run.oracle_failure(
-                    dict(kind="names", name=name),
-                    "setup_task_paths refused the legal output name %r (%r)%s"
-                    % (name, refused, "; " + lost if lost else ""), None)
-            run.count("names:refused")
-            continue
-        if lost and predicted_out_name(name) == "in.rtdc":
-            # the requested name *plus* ".rtdc" is the input itself (e.g.
-            # output "in" for input "in.rtdc"): the user asked to overwrite
-            # the input; excluded by ASSUMPTIONS (a fix is proposed in
-            # fixes_proposed/C10-output-aliases-input.diff)
-            run.count("names:normalised-output-is-the-input(excluded)")
-            lost = None
+        case = dict(kind="names", name=name)
+        must_refuse = predicted_out_name(name) == "in.rtdc"
         if lost:
-            run.oracle_failure(dict(kind="names", name=name), lost, None)
+            run.oracle_failure(case, lost, None)
+        if must_refuse and refused is None:
+            run.oracle_failure(case, "output %r becomes the input in.rtdc "
+                               "but setup_task_paths did not refuse" % name,
+                               None)
+        if refused is not None and not must_refuse:
+            run.oracle_failure(case, "setup_task_paths refused the legal "
+                               "output name %r (%r)" % (name, refused), None)
+        if refused is not None:
+            run.count("names:refused")
+            run.record_case(case, True, sample=False)
+            names.append(name)
+            impl.append([-2])
+            continue
         if pout.name != predicted_out_name(name):
             run.oracle_failure(
-                dict(kind="names", name=name),
+                case,
                 "requested output %r is written to %r, the name theorems "
                 "predict %r" % (name, pout.name, predicted_out_name(name)),
                 None)
@@ -1175,9 +1179,11 @@ def names_check(run):
             bad.append("output %r" % (pout,))
         if bad:
             run.oracle_failure(case, "; ".join(bad), None)
+    inp = common.zlist([ord(c) for c in "in.rtdc"])
     model = common.coq_map(run.scratch, "c10names", NAMES_HEADER,
-                           "setup_flat",
-                           [common.zlist([ord(c) for c in nm])
+                           "setup_paths_flat",
+                           ["(%s, %s)" % (inp,
+                                          common.zlist([ord(c) for c in nm]))
                             for nm in names])
     for nm, m, i in zip(names, model, impl):
         run.corr_checked += 1
@@ -1198,6 +1204,12 @@ def natural_failures(run):
             jobs.append((idx, "truncated-input"))
         if case["task"] == "split":
             jobs.append((idx, "stale-temp"))
+        if "inputs" in case and case["task"] in ("compress", "repack",
+                                                 "condense", "join"):
+            # `repack in0.rtdc in0` / `repack in0.rtdc in0.rtdc`: the
+            # corrected output name is an input: the task must refuse
+            jobs.append((idx, run.rng.choice(["alias-output",
+                                              "same-path"])))
     for res in pmap("natural_job", jobs):
         if "crash" in res:
             run.broken.append(("harness(C10)", "natural-failure run crashed: "
@@ -1230,12 +1242,32 @@ def natural_job(job):
         with open(t, "wb") as fd:
             fd.write(b"stale junk")
         pre["__tmp__"] = sha(t)
+    if what in ("alias-output", "same-path"):
+        last = lay["ins"][-1]
+        lay = dict(lay, req=[last[:-len(".rtdc")] if what == "alias-output"
+                             else last])
+    before = sorted(os.path.relpath(os.path.join(dp, f), w)
+                    for dp, _dn, fs in os.walk(w) for f in fs)
     failed = False
+    exc = None
     try:
         run_task(case, lay, w)
-    except BaseException:  # noqa
+    except BaseException as e:  # noqa
         failed = True
+        exc = e
     fails = []
+    if what in ("alias-output", "same-path"):
+        after = sorted(os.path.relpath(os.path.join(dp, f), w)
+                       for dp, _dn, fs in os.walk(w) for f in fs)
+        if not failed:
+            fails.append("the task did not refuse an output path that is "
+                         "its input %s" % lay["req"])
+        elif not isinstance(exc, ValueError):
+            fails.append("the task failed with %r instead of refusing" %
+                         (exc,))
+        if after != before:
+            fails.append("files changed although the task had to refuse: "
+                         "%s -> %s" % (before, after))
     for i, o in enumerate(lay["outs"]):
         p = os.path.join(w, o)
         if not os.path.lexists(p):
@@ -1425,19 +1457,26 @@ def replay(payload):
             dir=os.environ.get("VERIF_SCRATCH", "/var/tmp")))
         try:
             (d / "in.rtdc").write_bytes(b"input data")
-            pin, pout, ptmp = cli_common.setup_task_paths(
-                d / "in.rtdc", d / case["name"],
-                allowed_input_suffixes=[".rtdc"])
-            print("input in.rtdc, requested output %r -> output %r, "
-                  "temporary %r (predicted output %r)" % (
-                      case["name"], pout.name, ptmp.name,
-                      predicted_out_name(case["name"])))
+            must_refuse = predicted_out_name(case["name"]) == "in.rtdc"
+            try:
+                pin, pout, ptmp = cli_common.setup_task_paths(
+                    d / "in.rtdc", d / case["name"],
+                    allowed_input_suffixes=[".rtdc"])
+                print("input in.rtdc, requested output %r -> output %r, "
+                      "temporary %r (predicted output %r)" % (
+                          case["name"], pout.name, ptmp.name,
+                          predicted_out_name(case["name"])))
+                bad = (must_refuse or ptmp.name != pout.name + "~"
+                       or pout.name != predicted_out_name(case["name"]))
+            except ValueError as e:
+                print("input in.rtdc, requested output %r: refused (%s); "
+                      "refusal expected: %s" % (case["name"], e, must_refuse))
+                bad = not must_refuse
             gone = not (d / "in.rtdc").exists()
             if gone:
                 print("the input file in.rtdc was removed by "
                       "setup_task_paths")
-            bad = (gone or ptmp.name != pout.name + "~"
-                   or pout.name != predicted_out_name(case["name"]))
+            bad = bad or gone
         finally:
             shutil.rmtree(d, ignore_errors=True)
         print("FAILS" if bad else "passes on the current tree")
@@ -1463,7 +1502,11 @@ def replay(payload):
             bad = (not all(ro["inputs_same"]) or bool(ro["unexpected"])
                    or (info["err"] is None and (0 in ro["out"]
                                                 or any(ro["tmp"]))))
-            if not all(ro["inputs_same"]):
+            if case.get("out_name") and info["err"] is not None:
+                bad = True
+                print("FAILS: the task fails for the legal output name %r: "
+                      "%s" % (case["out_name"], info["err"][:200]))
+            elif not all(ro["inputs_same"]):
                 print("FAILS: an input file was modified or removed "
                       "(requested output %s, expected at %s)" % (
                           info["lay"].get("req") or info["lay"]["outs"],
@@ -1503,6 +1546,14 @@ def shrink(run, failure):
     """Report the failing case as is (the earliest failing k of the same
     case and kind is preferred when several were seen)."""
     case = failure["case"]
+    if case.get("kind") in ("sigkill", "sigint", "sigterm"):
+        # prefer a failure that replays deterministically
+        det = [f for f in run.oracle_fail
+               if f["case"].get("kind") not in ("sigkill", "sigint",
+                                                "sigterm")]
+        if det:
+            failure = det[0]
+            case = failure["case"]
     same = [f for f in run.oracle_fail
             if _strip(f["case"]) == _strip(case)
             and f["case"].get("kind") == case.get("kind")
